@@ -18,6 +18,11 @@ Property theorems about the model of `BinEncoder` (`Model/Encoder.lean`) and of 
                          `Uncompressed` mode, lower-cased in `UncompressedLowercase` mode — as an fqdn
                          name, ends exactly at the new offset, and the invariant holds again;
 * `emitName_len`         at most 255 octets are written, within `max_size`, appended to the old buffer;
+* `emitName_no_panic`    none of the `assert!`/slice/subtraction panic sites of `Name::emit` is reachable from
+                         the appending state when `max_size ≤ 65535`;
+* `LaidH` …              `emitName_laidH`, `LaidH.append/overwrite/mono`, `readName_of_LaidH`: the form in
+                         which "this name decodes here" survives later appends and back-patches
+                         (interface for the message-level proof of stage 2);
 * `emitNames_readName`   emitting any list of (mode, name) pairs one after another from the empty
                          encoder: every one of them decodes back at its own start offset from the
                          final buffer.
@@ -99,7 +104,7 @@ theorem emitName_readName (e e' : Enc) (n : Name) (hwf : n.WF) (happ : e.offset 
     readName e'.buf e.offset = .ok ({ emitted e n with fqdn := true }, e'.offset) ∧
       PtrInv e' ∧ e'.offset = e'.buf.length := by
   have hp := emit_post (H := fun _ => True) hwf happ hinv (fun _ _ _ => trivial) h
-  obtain ⟨F, hl⟩ := hp.laid
+  obtain ⟨F, hl, _⟩ := hp.laid
   exact ⟨readName_of_Laid hl (flat_length_le_of_WF hwf e), hp.inv, hp.app⟩
 
 /-- letter case is preserved in `Compressed` and `Uncompressed` mode … -/
@@ -126,7 +131,7 @@ theorem emitName_len (e e' : Enc) (n : Name) (hwf : n.WF) (happ : e.offset = e.b
       e'.maxSize = e.maxSize ∧ (∃ x, e'.buf = e.buf ++ x) ∧
       e'.nameEncoding = e.nameEncoding ∧ e'.canonicalForm = e.canonicalForm := by
   have hp := emit_post (H := fun _ => True) hwf happ hinv (fun _ _ _ => trivial) h
-  obtain ⟨F, hl⟩ := hp.laid
+  obtain ⟨F, hl, _⟩ := hp.laid
   have h1 := hl.pos_lt_end
   have h2 := hp.len
   have h3 := flat_length_le_of_WF hwf e
@@ -234,6 +239,312 @@ theorem ptrInvH_placeReplace {H : Nat × Nat → Prop} (e e' : Enc) (start len :
   intro iv hiv i h1 h2
   exact getElem?_splice e.buf data start len i hd hin (by have := havoid iv hiv; omega)
 
+/-! ### names that stay decodable while the message is completed (for the message level) -/
+
+/-- `ls` is laid out at offset `o` of `buf` (a run from `o` to `en`) with a footprint admitted by `H` -/
+def LaidH (H : Nat × Nat → Prop) (buf : Bytes) (o : Nat) (ls : List Bytes) (en : Nat) : Prop :=
+  ∃ F, Laid buf o o ls en F ∧ ∀ iv ∈ F, H iv
+
+/-- what `Name::emit` leaves behind, in the form that survives later appends and back-patches -/
+theorem emitName_laidH {H : Nat × Nat → Prop} (e e' : Enc) (n : Name) (hwf : n.WF)
+    (happ : e.offset = e.buf.length) (hinv : PtrInvH H e) (hH : ∀ a b, e.offset ≤ a → H (a, b))
+    (h : Name.emit e n = .ok () e') : LaidH H e'.buf e.offset (emitted e n).labels e'.offset :=
+  (emit_post hwf happ hinv hH h).laid
+
+theorem LaidH.append {H buf o ls en} (h : LaidH H buf o ls en) (x : Bytes) : LaidH H (buf ++ x) o ls en := by
+  obtain ⟨F, h1, h2⟩ := h
+  exact ⟨F, h1.append (Nat.le_refl _) x, h2⟩
+
+/-- overwriting bytes outside every admitted run (a reserved `Place`) -/
+theorem LaidH.overwrite {H buf o ls en} (h : LaidH H buf o ls en) (b' : Bytes)
+    (hsame : ∀ iv, H iv → ∀ i, iv.1 ≤ i → i < iv.2 → b'[i]? = buf[i]?) : LaidH H b' o ls en := by
+  obtain ⟨F, h1, h2⟩ := h
+  exact ⟨F, h1.frame_footprint (Nat.le_refl _) (fun iv hiv => hsame iv (h2 iv hiv)), h2⟩
+
+theorem LaidH.mono {H H' : Nat × Nat → Prop} {buf o ls en} (h : LaidH H buf o ls en)
+    (himp : ∀ iv : Nat × Nat, iv.1 < iv.2 → iv.2 ≤ en → H iv → H' iv) : LaidH H' buf o ls en := by
+  obtain ⟨F, h1, h2⟩ := h
+  exact ⟨F, h1, fun iv hiv => by
+    have := h1.footprint_le (Nat.le_refl _) iv hiv
+    exact himp iv this.1 this.2 (h2 iv hiv)⟩
+
+/-- a laid-out name of at most 255 octets is what `Name::read` returns at that offset -/
+theorem readName_of_LaidH {H buf o ls en} (h : LaidH H buf o ls en) (hlen : (flat ls).length + 1 ≤ 255) :
+    readName buf o = .ok ({ labels := ls, fqdn := true }, en) := by
+  obtain ⟨F, h1, _⟩ := h
+  exact readName_of_Laid h1 hlen
+
+/-! ### `Name::emit` does not panic -/
+
+theorem emitSlice_no_panic (e : Enc) (d : Bytes) (h : e.offset = e.buf.length) (s : String) :
+    e.emitSlice d ≠ .panic s := by
+  rw [emitSlice_app _ _ h]; split <;> simp
+
+theorem emitCharacterData_no_panic (e : Enc) (l : Bytes) (h : e.offset = e.buf.length) (s : String) :
+    e.emitCharacterData l ≠ .panic s := by
+  unfold Enc.emitCharacterData Enc.emitU8
+  by_cases hl : l.length > 255
+  · simp [hl]
+  · simp only [hl, ↓reduceIte]
+    rw [emitSlice_app _ _ h]
+    simp only [List.length_cons, List.length_nil, Nat.zero_add]
+    by_cases hc : e.maxSize < e.offset + 1
+    · simp [hc]
+    · simp only [hc, ↓reduceIte]
+      exact emitSlice_no_panic _ _ (by simp [h]) s
+
+theorem emitCharacterData_fits {e e' : Enc} {l : Bytes} (h : e.offset = e.buf.length)
+    (hl : l.length ≤ 63) (hok : e.emitCharacterData l = .ok () e') : e'.offset ≤ e.maxSize := by
+  have he := emitCharacterData_ok h hl hok
+  unfold Enc.emitCharacterData Enc.emitU8 at hok
+  have hm : l.length % 256 = l.length := by omega
+  rw [if_neg (by omega), emitSlice_app _ _ h, hm] at hok
+  by_cases hc : e.maxSize < e.offset + 1
+  · simp [hc] at hok
+  · simp only [List.length_cons, List.length_nil, Nat.zero_add, hc, ↓reduceIte] at hok
+    rw [emitSlice_app _ _ (by simp [h])] at hok
+    by_cases hc2 : e.maxSize < e.offset + 1 + l.length
+    · simp [hc2] at hok
+    · rw [he]; simp only; omega
+
+theorem emitLabels_no_panic : ∀ (ls : List Bytes) (e : Enc) (w : List Nat) (s : String),
+    e.offset = e.buf.length → emitLabels e ls w ≠ .panic s
+  | [], e, w, s, _ => by simp [emitLabels]
+  | l :: ls, e, w, s, happ => by
+    unfold emitLabels
+    split
+    · simp
+    · rename_i hl
+      cases hcd : e.emitCharacterData l with
+      | ok u e' =>
+        have := emitCharacterData_ok happ (by omega) hcd
+        exact emitLabels_no_panic ls e' _ s (by rw [this]; simp [happ]; omega)
+      | err k e' => simp
+      | panic s' => exact absurd hcd (emitCharacterData_no_panic e l happ s')
+
+theorem emitLabels_fits : ∀ (ls : List Bytes) (e : Enc) (w w' : List Nat) (e1 : Enc),
+    e.offset = e.buf.length → (∀ l ∈ ls, l.length ≤ 63) → ls ≠ [] → emitLabels e ls w = .ok w' e1 →
+    e1.offset ≤ e.maxSize
+  | [], _, _, _, _, _, _, hne, _ => absurd rfl hne
+  | l :: ls, e, w, w', e1, happ, hl, _, h => by
+    rw [emitLabels, if_neg (by have := hl l (by simp); omega)] at h
+    cases hcd : e.emitCharacterData l with
+    | ok u e' =>
+      rw [hcd] at h
+      have he' := emitCharacterData_ok happ (hl l (by simp)) hcd
+      have hfit := emitCharacterData_fits happ (hl l (by simp)) hcd
+      cases ls with
+      | nil => simp only [emitLabels, ERes.ok.injEq] at h; rw [← h.2]; exact hfit
+      | cons l2 ls2 =>
+        have := emitLabels_fits (l2 :: ls2) e' _ _ _ (by rw [he']; simp [happ]; omega)
+          (fun x hx => hl x (by simp [hx])) (by simp) h
+        rw [he'] at this; exact this
+    | err k e' => rw [hcd] at h; simp at h
+    | panic s => rw [hcd] at h; simp at h
+
+theorem findPtr_no_panic (search : Bytes) : ∀ (ps : List (Nat × Bytes)) (s : String),
+    (∀ p ∈ ps, p.1 ≤ 65535) → Enc.findPtr search ps ≠ .panic s
+  | [], s, _ => by simp [Enc.findPtr]
+  | (ms, m) :: rest, s, h => by
+    unfold Enc.findPtr
+    split
+    · have := h (ms, m) (by simp)
+      rw [if_neg (by simp at this ⊢; omega)]; simp
+    · exact findPtr_no_panic search rest s (fun p hp => h p (by simp [hp]))
+
+theorem storeLabelPointer_mid_no_panic {e ec : Enc} {front : List Bytes} {l : Bytes} {back : List Bytes}
+    (hm : Mid e (front ++ l :: back) ec) (hfit : ec.offset ≤ 65535) (s : String) :
+    ec.storeLabelPointer (e.buf.length + (flat front).length) ec.offset ≠ .panic s := by
+  have hlt : e.buf.length + (flat front).length ≤ ec.offset := by
+    rw [hm.off, hm.buf, flat_append]; simp
+  unfold Enc.storeLabelPointer
+  rw [sliceOf_mid hm, if_neg (by omega), if_neg (by omega), if_neg (by omega)]
+  split <;> simp
+
+theorem findPtr_ne_err (search : Bytes) : ∀ (ps : List (Nat × Bytes)), Enc.findPtr search ps ≠ .err
+  | [] => by simp [Enc.findPtr]
+  | (ms, m) :: rest => by
+    unfold Enc.findPtr
+    split
+    · split <;> simp
+    · exact findPtr_ne_err search rest
+
+theorem sliceOf_ne_err (e : Enc) (a b : Nat) : e.sliceOf a b ≠ .err := by
+  unfold Enc.sliceOf
+  split
+  · simp
+  split
+  · simp
+  split <;> simp
+
+theorem storeLabelPointer_ne_err (e : Enc) (a b : Nat) : e.storeLabelPointer a b ≠ .err := by
+  unfold Enc.storeLabelPointer
+  split
+  · simp
+  split
+  · simp
+  split
+  · simp
+  split
+  · cases hs : e.sliceOf a b with
+    | ok v => simp
+    | err => exact absurd hs (sliceOf_ne_err e a b)
+    | panic s => simp
+  · simp
+
+theorem storeAll_ne_err (last : Nat) : ∀ (w : List Nat) (e : Enc), storeAll e last w ≠ .err
+  | [], e => by simp [storeAll]
+  | idx :: rest, e => by
+    unfold storeAll
+    cases hsp : e.storeLabelPointer idx last with
+    | ok e' => exact storeAll_ne_err last rest e'
+    | err => exact absurd hsp (storeLabelPointer_ne_err _ _ _)
+    | panic s => simp
+
+theorem compressLoop_no_panic (e : Enc) (ls : List Bytes) :
+    ∀ (back front : List Bytes) (ec : Enc) (s : String),
+    ls = front ++ back → Mid e ls ec → (∀ p ∈ ec.ptrs, p.1 ≤ 65535) → (ls ≠ [] → ec.offset ≤ 65535) →
+    compressLoop ec ec.offset (starts (e.buf.length + (flat front).length) back) ≠ .panic s
+  | [], front, ec, s, _, _, _, _ => by simp [starts, compressLoop]
+  | l :: back, front, ec, s, hls, hm, hp, hfit => by
+    have hm' : Mid e (front ++ l :: back) ec := hls ▸ hm
+    have hfit' : ec.offset ≤ 65535 := hfit (by rw [hls]; simp)
+    have hidx : e.buf.length + (flat front).length ≤ ec.offset := by
+      rw [hm'.off, hm'.buf, flat_append]; simp
+    have cont : ∀ e', ec.storeLabelPointer (e.buf.length + (flat front).length) ec.offset = .ok e' →
+        compressLoop e' ec.offset (starts (e.buf.length + (flat front).length + 1 + l.length) back) ≠ .panic s := by
+      intro e' hst
+      have hfl : e.buf.length + (flat front).length + 1 + l.length
+          = e.buf.length + (flat (front ++ [l])).length := by
+        rw [flat_append]; simp; omega
+      rw [hfl]
+      have hls' : ls = (front ++ [l]) ++ back := by rw [hls]; simp
+      rcases storeLabelPointer_mid hm' hst with he | he <;> rw [he]
+      · exact compressLoop_no_panic e ls back (front ++ [l]) ec s hls' hm hp hfit
+      · refine compressLoop_no_panic e ls back (front ++ [l]) _ s hls' (hm.withPtrs _) ?_ hfit
+        intro p hp'
+        simp only at hp'
+        rcases List.mem_append.1 hp' with hp' | hp'
+        · exact hp p hp'
+        · simp only [List.mem_singleton] at hp'; subst hp'; simp only; omega
+    simp only [starts]
+    unfold compressLoop
+    unfold Enc.getLabelPointer
+    rw [sliceOf_mid hm']
+    simp only
+    cases hf : Enc.findPtr (flat (l :: back)) ec.ptrs with
+    | panic s' => exact absurd hf (findPtr_no_panic _ _ s' hp)
+    | err => exact absurd hf (findPtr_ne_err _ _)
+    | ok o =>
+      have hstore : ∀ s', ec.storeLabelPointer (e.buf.length + (flat front).length) ec.offset ≠ .panic s' :=
+        storeLabelPointer_mid_no_panic hm' hfit'
+      cases o with
+      | none =>
+        simp only
+        cases hst : ec.storeLabelPointer (e.buf.length + (flat front).length) ec.offset with
+        | ok e' => exact cont e' hst
+        | err => exact absurd hst (storeLabelPointer_ne_err _ _ _)
+        | panic s' => exact absurd hst (hstore s')
+      | some loc =>
+        simp only
+        split
+        · obtain ⟨tb, to, tm, tc, tn, tp⟩ := trim_mid hm'
+          generalize Enc.trim { ec with offset := e.buf.length + (flat front).length } = et at *
+          cases hu : et.emitU16 (49152 + loc) with
+          | ok u e2 => simp
+          | err k e2 => simp
+          | panic s' => exact absurd hu (emitSlice_no_panic et _ to s')
+        · cases hst : ec.storeLabelPointer (e.buf.length + (flat front).length) ec.offset with
+          | ok e' => exact cont e' hst
+          | err => exact absurd hst (storeLabelPointer_ne_err _ _ _)
+          | panic s' => exact absurd hst (hstore s')
+
+theorem storeAll_no_panic (e : Enc) (ls : List Bytes) :
+    ∀ (back front : List Bytes) (ec : Enc) (s : String),
+    ls = front ++ back → Mid e ls ec → (ls ≠ [] → ec.offset ≤ 65535) →
+    storeAll ec ec.offset (starts (e.buf.length + (flat front).length) back) ≠ .panic s
+  | [], front, ec, s, _, _, _ => by simp [starts, storeAll]
+  | l :: back, front, ec, s, hls, hm, hfit => by
+    have hm' : Mid e (front ++ l :: back) ec := hls ▸ hm
+    have hfit' : ec.offset ≤ 65535 := hfit (by rw [hls]; simp)
+    simp only [starts]
+    unfold storeAll
+    cases hst : ec.storeLabelPointer (e.buf.length + (flat front).length) ec.offset with
+    | ok e' =>
+      simp only
+      have hfl : e.buf.length + (flat front).length + 1 + l.length
+          = e.buf.length + (flat (front ++ [l])).length := by
+        rw [flat_append]; simp; omega
+      rw [hfl]
+      have hls' : ls = (front ++ [l]) ++ back := by rw [hls]; simp
+      rcases storeLabelPointer_mid hm' hst with he | he <;> rw [he]
+      · exact storeAll_no_panic e ls back (front ++ [l]) ec s hls' hm hfit
+      · exact storeAll_no_panic e ls back (front ++ [l]) _ s hls' (hm.withPtrs _) hfit
+    | err => exact absurd hst (storeLabelPointer_ne_err _ _ _)
+    | panic s' => exact absurd hst (storeLabelPointer_mid_no_panic hm' hfit' s')
+
+theorem emitRoot_no_panic {e e2 : Enc} {ls : List Bytes} (hm : Mid e ls e2) (s : String) :
+    emitRoot e2 e.buf.length ≠ .panic s := by
+  unfold emitRoot Enc.emitU8
+  rw [emitSlice_app _ _ hm.off]
+  simp only [List.length_cons, List.length_nil, Nat.zero_add]
+  by_cases hc : e2.maxSize < e2.offset + 1
+  · simp [hc]
+  · simp only [hc, ↓reduceIte]
+    rw [if_neg (by rw [hm.buf]; simp)]
+    split <;> simp
+
+/-- **`Name::emit` reaches none of its panic sites** (the `assert!`s of `store_label_pointer`,
+`slice_of`, `get_label_pointer`, the `debug_assert!` of `MaximalBuf::write`, the `usize`
+subtraction): from the appending state, with the limit a `u16` (`max_size ≤ 65535`, which is what
+`set_max_size(u16)` enforces) and every candidate start below the offset, for every name whose
+labels are at most 63 octets long. -/
+theorem emitName_no_panic (e : Enc) (n : Name) (hwf : n.WF) (happ : e.offset = e.buf.length)
+    (hmax : e.maxSize ≤ 65535) (hptrs : ∀ p ∈ e.ptrs, p.1 < e.offset) (hoff : e.offset ≤ 65535)
+    (s : String) : Name.emit e n ≠ .panic s := by
+  have hlab := labelsOK_emitted (e := e) hwf
+  unfold Name.emit
+  simp only
+  change (match emitLabels e (emitted e n).labels [] with
+    | .panic s => _ | .err k e1 => _ | .ok written e1 => _) ≠ _
+  generalize (emitted e n).labels = ls at hlab
+  cases hl : emitLabels e ls [] with
+  | panic s' => exact absurd hl (emitLabels_no_panic ls e [] s' happ)
+  | err k e1 => simp
+  | ok written e1 =>
+    simp only
+    obtain ⟨he1, hw⟩ := emitLabels_ok ls e [] written e1 happ (fun l hl' => (hlab l hl').2) hl
+    have hm : Mid e ls e1 := by rw [he1]; exact ⟨rfl, by simp [happ], rfl, rfl, rfl⟩
+    have hfit : ls ≠ [] → e1.offset ≤ 65535 := fun hne => by
+      have := emitLabels_fits ls e [] written e1 happ (fun l hl' => (hlab l hl').2) hne hl
+      omega
+    have hst : written = starts (e.buf.length + (flat []).length) ls := by rw [hw, happ]; simp
+    have hp1 : ∀ p ∈ e1.ptrs, p.1 ≤ 65535 := by
+      intro p hp; rw [he1] at hp; have := hptrs p hp; omega
+    rw [hst]
+    split
+    · have hm' : Mid e ls { e1 with compressedNameCount := e1.compressedNameCount + 1 } :=
+        ⟨hm.buf, hm.off, hm.max, hm.canon, hm.ne⟩
+      cases hc : compressLoop { e1 with compressedNameCount := e1.compressedNameCount + 1 } e1.offset
+          (starts (e.buf.length + (flat []).length) ls) with
+      | panic s' => exact absurd hc (compressLoop_no_panic e ls ls [] _ s' rfl hm' hp1 hfit)
+      | err k e2 => simp
+      | ok flag e2 =>
+        cases flag with
+        | true => simp
+        | false =>
+          simp only
+          have := compressLoop_spec e ls ls [] _ [] false e2 rfl hm' (by rw [he1]; simp) (by simp) hc
+          cases this with
+          | miss news hm2 _ _ _ => exact emitRoot_no_panic hm2 s
+    · cases hs : storeAll e1 e1.offset (starts (e.buf.length + (flat []).length) ls) with
+      | panic s' => exact absurd hs (storeAll_no_panic e ls ls [] e1 s' rfl hm hfit)
+      | err => exact absurd hs (storeAll_ne_err _ _ _)
+      | ok e2 =>
+        simp only
+        have := storeAll_spec e ls ls [] e1 [] e2 rfl hm (by rw [he1]; simp) (by simp) hs
+        cases this with
+        | miss news hm2 _ _ _ => exact emitRoot_no_panic hm2 s
 /-! ### sequences of names -/
 
 /-- what a name written in mode `m` must decode to -/
